@@ -1,6 +1,8 @@
 package main
 
 import (
+	"os"
+	"time"
 	"fmt"
 	"strings"
 
@@ -77,7 +79,24 @@ func tokString(sb *strings.Builder, t *token.Token, lpos int, dot bool, proj str
 // lexLine lexes s completely in the given mode and renders the canonical line under a projection:
 // full (every field, error class and range), c13 (tiling observables; "-" when not accepted),
 // c14 (kinds/boundaries/values; "ERR" when rejected), c03 (outcome and error range only).
+// lexLine with a watchdog: the lexer must return within 2 s on every input; a run that does not is reported as "TIMEOUT" and the
+// process ends right after (the spinning goroutine cannot be stopped)
 func lexLine(s string, np bool, proj string) (line string) {
+	done := make(chan string, 1)
+	go func() { done <- lexLineRaw(s, np, proj) }()
+	select {
+	case l := <-done:
+		return l
+	case <-time.After(2 * time.Second):
+		fmt.Fprintf(out, "%s => TIMEOUT\n", hx(s))
+		fmt.Fprintf(out, "FAIL %s timeout: the lexer did not return within 2s\n", hx(s))
+		out.Flush()
+		os.Exit(0)
+		return ""
+	}
+}
+
+func lexLineRaw(s string, np bool, proj string) (line string) {
 	var sb strings.Builder
 	fail := func(what string) string {
 		switch proj {
